@@ -23,6 +23,12 @@ struct Lib
 
 void
 reset(); // common driver present, everything else absent
+// the real common driver (statically linked, entry point renamed)
+void
+reset_common(Lib* out);
+// an entry point that fails to initialise (returns NULL)
+init_fn
+null_init();
 void
 set_lib(const std::string& name, const Lib& lib);
 uint64_t
